@@ -315,6 +315,13 @@ func init() {
 			// either of them claim - every payout must be the same unit for unit
 			rcfg := c18Config()
 			rcfg.Assets[0].TakeRate = "0"
+			// an odd native stake per validator: after a halving of a weight the voting-power targets are not whole numbers, so a
+			// validator can sit a fraction of a token above its target (a rebalance that moves nothing)
+			rcfg.NativeStake = 1000003
+			// no warming-up asset here: while one exists the module re-queues a rebalance in every block, and the rebalance that
+			// InitGenesis queues on the imported side would never be the only one
+			rcfg.Assets = rcfg.Assets[:2]
+			rcfg.Assets[0].ChangeInterval = 4 * U
 			rewardOps := func(n *engine.Node) []world.Op {
 				var ops []world.Op
 				for _, p := range [][3]any{{0, 0, "aaa"}, {1, 0, "aaa"}, {0, 0, "bbb"}} {
@@ -338,7 +345,10 @@ func init() {
 			}
 			rewards := func(budgets []int, depth, cont int) *engine.Scenario {
 				sc := mk("c18-reward-history", rcfg, budgets, depth, cont, rewardCont, []string{"boundary_states", "boundary.with_weight_change_snapshots", "lockstep.continuation_steps", "boundary.with_claim_heights_on_both_sides_of_a_snapshot"})
-				sc.Seeds = [][]world.Op{{opDel(0, 0, "aaa", "100000"), opDel(1, 0, "aaa", "100000"), opDel(0, 0, "bbb", "70000"), opDel(1, 0, "bbb", "30000"), opBlock(1)}}
+				base := []world.Op{opDel(0, 0, "aaa", "100000"), opDel(1, 0, "aaa", "100000"), opDel(0, 0, "bbb", "70000"), opDel(1, 0, "bbb", "30000"), opBlock(1)}
+				// second seed: aaa's weight was halved at +4u (the rebalance unbonded down to a fractional target), the rebalance
+				// re-queued by the staking hooks has been consumed at +5u: a quiet chain with a validator half a token above target
+				sc.Seeds = [][]world.Op{base, append(append([]world.Op{}, base...), opBlock(3), opBlock(1), opBlock(1))}
 				sc.Ops = rewardOps
 				return sc
 			}
